@@ -1227,6 +1227,47 @@ class Alias(ObjectAliasMixin):
             for name, member in final_target.inherited_members.items()
         }
 
+    # An alias has no members of its own: the dictionaries above are built on every access.
+    # Setting or deleting a member therefore happens in the target.
+
+    def set_member(self, key: str | Sequence[str], value: Object | Alias) -> None:
+        """Set a member of the target with its name or path.
+
+        See also: [`Object.set_member`][griffe.Object.set_member].
+
+        Parameters:
+            key: The name or path of the member.
+            value: The member.
+        """
+        self.final_target.set_member(key, value)
+
+    def __setitem__(self, key: str | Sequence[str], value: Object | Alias) -> None:
+        """Set a member of the target with its name or path.
+
+        Parameters:
+            key: The name or path of the member.
+            value: The member.
+        """
+        self.final_target[key] = value
+
+    def del_member(self, key: str | Sequence[str]) -> None:
+        """Delete a member of the target with its name or path.
+
+        See also: [`Object.del_member`][griffe.Object.del_member].
+
+        Parameters:
+            key: The name or path of the member.
+        """
+        self.final_target.del_member(key)
+
+    def __delitem__(self, key: str | Sequence[str]) -> None:
+        """Delete a member of the target with its name or path.
+
+        Parameters:
+            key: The name or path of the member.
+        """
+        del self.final_target[key]
+
     def as_json(self, *, full: bool = False, **kwargs: Any) -> str:
         """Return this target's data as a JSON string.
 
